@@ -60,8 +60,8 @@ def skip_cell(op, lv, rv):
         return True             # ZeroDivisionError
     if op == '<<' and isinstance(rv, int) and rv < 0 or op == '>>' and isinstance(rv, int) and rv < 0:
         return True
-    if op == '%' and isinstance(lv, str):
-        return True            # printf formatting: the verdict depends on the format string, not on the types
+    if op == '%' and isinstance(lv, str) and '%' in lv:
+        return True            # printf formatting with a conversion in the text: the verdict depends on the format string, not on the types
     return False
 
 
